@@ -39,7 +39,7 @@ MOD = "vf.checks.c12"
 
 VARIANTS = ["MutableRandomLineAccessFile", "MutableMemoryMappedRandomLineAccessFile", "MutableRecordFile:raw",
             "MutableMemoryMappedRecordFile:raw", "MutableRecordFile:json", "MutableMemoryMappedRecordFile:json"]
-ALPHABET = ["", "a", "b", "line", "hello world", "  padded  ", "\t", "žluťoučký kůň", "日本語", "😀", "x" * 30, "0", "a,b", "a"]
+ALPHABET = ["", "a", "b", "line", "hello world", "  padded  ", "\t", "žluťoučký kůň", "日本語", "😀", "x" * 30, "0", "a,b", "a", "\ufeffbom first"]
 ENDINGS = ["\n", "\n", "\r\n", "\t", "", "<>"]
 OPS = ["set", "set", "del", "insert", "insert", "append", "extend", "pop", "pop_i", "remove", "reverse", "iadd",
        "get", "slice", "list", "len", "contains", "index", "count", "reopen_next"]
